@@ -1372,6 +1372,13 @@ namespace awkward {
       }
     }
 
+    if (for_each_field.empty()) {
+      minlength = length_;
+      for (auto array : headless) {
+        minlength += array.get()->length();
+      }
+    }
+
     ContentPtr next = std::make_shared<RecordArray>(Identities::none(),
                                                     parameters,
                                                     nextcontents,
